@@ -130,6 +130,15 @@ def run(ctx):
         impl_sets.append(oracle(ctx, text, must))
         ctx.tally.add("results:%d" % (len(impl_sets[-1]) if impl_sets[-1] is not None else -1))
     if ctx.model_available:
+        # direct tie of the scanner model to Python's re on the (pinned copy of the) library's pattern
+        import re as _re
+        pat = _re.compile(r"(?:CVSS:3\.\d/)?[A-Za-z:/]{26,}")
+        sel0 = [t for t, _ in texts if core.sendable(t)]
+        raw = core.run_driver(["XF\t%s" % enc(t) for t in sel0])
+        for t, mo in zip(sel0, raw):
+            want = "ok\t" + "\x01".join(core.esc(m) for m in pat.findall(t))
+            if mo != want:
+                ctx.disagree("scanner-model-vs-python-re", t, mo[:300], want[:300])
         sel = [(i, t) for i, (t, _) in enumerate(texts) if core.sendable(t)]
         out = core.run_driver(["X\t%s" % enc(t) for _, t in sel])
         for (i, t), mo in zip(sel, out):
